@@ -149,6 +149,10 @@ impl Execution {
         init_panic_hook(config.clone());
         CurrentSchedule::init(self.initial_schedule.clone());
         UNGRACEFUL_SHUTDOWN_CONFIG.set(config.ungraceful_shutdown_config);
+        // A failing execution unwinds past `cleanup`, so an earlier run on this thread may have left
+        // its tags and labels behind. Every execution starts with none.
+        TASK_ID_TO_TAGS.with(|cell| cell.borrow_mut().clear());
+        LABELS.with(|cell| cell.borrow_mut().clear());
 
         EXECUTION_STATE.set(&state, move || {
             // Spawn `f` as the first task
